@@ -1145,8 +1145,7 @@ class Transformer:
             'earliestDate': (MAX_UNTIL_YEAR, 12, 31),
             'rule': None,
         }
-        # rules will never be empty, so this will always produce a
-        # non-empty anchor_info['rule'].
+        # rules will never be empty.
         for rule in rules:
             from_year = rule['fromYear']
             in_month = rule['inMonth']
@@ -1160,6 +1159,21 @@ class Transformer:
                     and rule_date < anchor_info['earliestDate']):
                 anchor_info['earliestDate'] = rule_date
                 anchor_info['rule'] = rule
+
+        # The rules with SAVE == 0 may all have been removed as unused, when
+        # every zone era begins after a rule with SAVE != 0 of a policy that
+        # starts later than (self.start_year - 1). The anchor then lies before
+        # the latest prior rule of every such era, so the earliest remaining
+        # rule will do as its template.
+        if anchor_info['rule'] is None:
+            for rule in rules:
+                month, day = calc_day_of_month(
+                    rule['fromYear'], rule['inMonth'], rule['onDayOfWeek'],
+                    rule['onDayOfMonth'])
+                rule_date = (rule['fromYear'], month, day)
+                if rule_date < anchor_info['earliestDate']:
+                    anchor_info['earliestDate'] = rule_date
+                    anchor_info['rule'] = rule
 
         anchor_rule = cast(ZoneRuleRaw, anchor_info['rule']).copy()
         anchor_rule['fromYear'] = MIN_YEAR
